@@ -610,6 +610,13 @@ func (r *runningStep) run() {
 		schema.PointerTo("resolved"),
 		&enabledOutput,
 	)
+	r.lock.Lock()
+	if !r.executionInputAvailable {
+		r.currentState = step.RunningStepStateWaitingForInput
+	}
+	r.lock.Unlock()
+	// Announce the new stage without a completed stage. If the step is now waiting for input, this lets
+	// the workflow check if it is stuck.
 	r.stageChangeHandler.OnStageChange(
 		r,
 		nil,
@@ -619,11 +626,6 @@ func (r *runningStep) run() {
 		waitingForInput,
 		&r.wg,
 	)
-	r.lock.Lock()
-	if !r.executionInputAvailable {
-		r.currentState = step.RunningStepStateWaitingForInput
-	}
-	r.lock.Unlock()
 	r.runOnInput()
 }
 
